@@ -10,7 +10,9 @@ import RuxModel.Model.Render
 
   value tokens are ignored by the model: the encoders' verdicts come with the line (`err` | hex).
 -/
-namespace Rux.Drv
+namespace Rux.Drv.RenderE
+open Rux.Drv
+open Rux.Drv.WriterE
 open Rux.Writer Rux.Render
 
 structure RenderSt where
@@ -152,4 +154,8 @@ def renderStep (s : RenderSt) : List String → RenderSt × String
 
 def renderEngine : Engine := { σ := RenderSt, init := RenderSt.init, step := renderStep }
 
+end Rux.Drv.RenderE
+
+namespace Rux.Drv
+export RenderE (renderEngine)
 end Rux.Drv
